@@ -66,6 +66,49 @@ func cachedDecoder(c Case) (*tcell.VerifInput, error) {
 }
 
 func propOn(in *tcell.VerifInput, c Case) error {
+	if err := propOn1(in, c); err != nil {
+		return err
+	}
+	if in != nil || len(c.Reports) < 2 {
+		return nil
+	}
+	// the same reports arriving in ONE read must decode to the same events (a
+	// report must consume exactly its own bytes, whatever its introducer)
+	return propOneRead(c)
+}
+
+func propOneRead(c Case) error {
+	ti, err := entry(c.Entry)
+	if err != nil {
+		return err
+	}
+	in, err := tcell.VerifNewInput(ti, "UTF-8", c.W, c.H)
+	if err != nil {
+		return fmt.Errorf("harness: %v", err)
+	}
+	var all []byte
+	for _, r := range c.Reports {
+		all = append(all, r.Bytes()...)
+	}
+	evs, left := in.Scan(all, false)
+	more, left := in.Scan(nil, true)
+	evs = append(evs, more...)
+	got := inref.FromAll(evs)
+	var st inref.MouseState
+	if len(got) != len(c.Reports) || left != 0 {
+		return fmt.Errorf("%d reports sent in one read (%q) decode to %d events %s with %d bytes left", len(c.Reports), all, len(got), inref.Show(got), left)
+	}
+	for i, r := range c.Reports {
+		want := st.Decode(r, c.W, c.H)
+		g := got[i]
+		if g.Kind != "mouse" || g.X != want.X || g.Y != want.Y || tcell.ModMask(g.Mod) != want.Mod || (want.ButtonsSet && tcell.ButtonMask(g.Btn) != want.Buttons) {
+			return fmt.Errorf("report %d %+v of %d sent in one read: decoded %s, want position (%d,%d) mod %d buttons %#x(set=%v)", i, r, len(c.Reports), g, want.X, want.Y, want.Mod, int(want.Buttons), want.ButtonsSet)
+		}
+	}
+	return nil
+}
+
+func propOn1(in *tcell.VerifInput, c Case) error {
 	if in == nil {
 		ti, err := entry(c.Entry)
 		if err != nil {
@@ -353,7 +396,7 @@ func TestProp(t *testing.T) {
 	pbt.Describe("single-report: exhaustive sweep (see exhaustive_subspaces) through the production parser (synchronous verif hook) on entries with mouse support; histories: rapid sequences of 1-12 press/motion/wheel/release reports (SGR or legacy X11 form, modifiers, coordinates inside/edge/beyond/negative/multi-digit, screen 1x1..200x60) on one decoder instance, each event compared with a reference xterm mouse decoder with press/drag/release state. Non-trivial = history containing press -> drag -> release (sweep: motion report after a press); distinct = hash of the case.",
 		"button codes xterm assigns to wheel left/right (66,67) and buttons 8-11 (bit 7), and wheel codes carrying the motion bit, are outside the statement's list: only position and modifiers are asserted for them",
 		"legacy X11 reports carry code+32, x+32, y+32 as single bytes, so only values <= 223 exist in that form",
-		"reports are delivered one per read (chunking independence is C02's business)")
+		"histories are decoded twice: one report per read, and all reports in a single read")
 	sweep(t)
 	pbt.Check(t, "histories", pbt.Pick(30000, 400000), pbt.Spec[Case]{Gen: genCase, Prop: prop, NonTrivial: nonTrivial, Classes: classes, Known: known})
 }
